@@ -284,6 +284,9 @@ int sim_pthread_mutex_lock(pthread_mutex_t *m) {
 }
 int sim_pthread_mutex_unlock(pthread_mutex_t *m) {
 	sim_mtx_t *x = (sim_mtx_t *)(void *)m;
+	/* a thread can lose the CPU while it still holds the lock: whoever looks at the protected data WITHOUT the
+	 * lock must be able to see the state inside the critical section */
+	sim_yield("mutex_unlock.pre");
 	if (x->magic != MTX_MAGIC || x->owner != sim_self()) {
 		sim_violation("mutex-misuse", "pthread_mutex_unlock of mutex %p not owned by the caller (magic %x owner %d)", (void *)m, x->magic, x->owner);
 		return EPERM;
@@ -351,13 +354,22 @@ int sim_timerfd_create(int clk, int flags) {
 	if (e) { sim_probe("fault.timerfd_create"); errno = e; return -1; }
 	if (clk != CLOCK_REALTIME && clk != CLOCK_MONOTONIC) { errno = EINVAL; return -1; }
 	if (flags & ~(TFD_NONBLOCK | TFD_CLOEXEC)) { errno = EINVAL; return -1; }
-	if (S.ntimers >= SIM_MAX_TIMERS) { sim_violation("sim-limit", "too many timers"); errno = EMFILE; return -1; }
+	int slot = S.ntimers;
+	if (slot >= SIM_MAX_TIMERS) {
+		/* table full: reuse the record of a timer the code under test has closed (a long connect_ex retry series
+		 * creates and closes one timer per attempt); only a table full of LIVE timers is a limit of the simulator */
+		slot = -1;
+		for (int i = 0; i < S.ntimers; i++) if (S.timers[i].closed) { slot = i; break; }
+		if (slot < 0) { sim_violation("sim-limit", "more than %d live timers", SIM_MAX_TIMERS); errno = EMFILE; return -1; }
+		sim_probe("sim.timer_record_reused");
+	}
 	fd = eventfd(0, ((flags & TFD_NONBLOCK) ? EFD_NONBLOCK : 0) | EFD_CLOEXEC);
 	if (fd < 0) return -1;
 	fd_set_rec(fd, FDK_TIMER, 1);
-	sim_timer_rec_t *t = &S.timers[S.ntimers];
+	sim_timer_rec_t *t = &S.timers[slot];
 	memset(t, 0, sizeof(*t));
-	t->fd = fd; t->ord = S.ntimers++; t->clock = clk;
+	t->fd = fd; t->ord = slot; t->clock = clk;
+	if (slot == S.ntimers) S.ntimers++;
 	S.fd_gen++;
 	sim_log("timerfd_create -> timer#%d", t->ord);
 	return fd;
@@ -497,6 +509,7 @@ int sim_epoll_create1(int flags) {
 	S.fd_gen++;
 	return fd;
 }
+int sim_fd_peer(int fd) { sim_fd_rec_t *r = sim_fd(fd); return (r && (r->kind == FDK_PIPE_R || r->kind == FDK_PIPE_W)) ? r->peer : -1; }
 int sim_pipe2(int fds[2], int flags) {
 	int e, r;
 	sim_yield("pipe2");
@@ -567,6 +580,7 @@ ssize_t sim_read(int fd, void *buf, size_t n) {
 		uint64_t v; memcpy(&v, buf, 8);
 		if (t) t->delivered += v;
 	}
+	if (r && r->kind == FDK_PIPE_R && rd > 0 && sim_on_pipe_io_hook) sim_on_pipe_io_hook(fd, 0, buf, rd);
 	if (r && r->kind == FDK_PIPE_R && rd > 32) sim_probe("queue.batch_gt1");
 	if (r && r->kind == FDK_PIPE_R && rd == (ssize_t)n && n >= 64) sim_probe("queue.buffer_filled");
 	S.fd_gen++;
@@ -598,6 +612,7 @@ ssize_t sim_write(int fd, const void *buf, size_t n) {
 		if (err == EAGAIN) sim_probe("queue.natural_eagain");
 		if (sim_self() >= 0) { S.fb[sim_self()].qwrite_fail++; S.fb[sim_self()].qwrite_fail_errno = err; }
 	}
+	if (wr > 0 && r && r->kind == FDK_PIPE_W && sim_on_pipe_io_hook) sim_on_pipe_io_hook(fd, 1, buf, wr);
 	S.fd_gen++;
 	sim_hash_u64(0x34170000000ull ^ (uint64_t)wr ^ ((uint64_t)(wr < 0 ? err : 0) << 20));
 	sim_log("write(fd#%d, %zu) = %zd%s%s", r ? r->ord : -1, n, wr, wr < 0 ? " " : "", wr < 0 ? strerror(err) : "");
@@ -727,8 +742,28 @@ ret_t sim_##name args_decl {                                                    
 	errno = err;                                                               \
 	return r;                                                                  \
 }
-SOCK_SEAM(ssize_t, recv, "recv", (int fd, void *buf, size_t n, int flags), (fd, buf, n, flags))
-SOCK_SEAM(ssize_t, send, "send", (int fd, const void *buf, size_t n, int flags), (fd, buf, n, flags))
+/* recv/send additionally take a SHORT-TRANSFER fault: the kernel moves fewer bytes than asked for although more
+ * could be moved (legal for any stream socket: memory pressure, a signal, segment boundaries) */
+#define SOCK_SEAM_SHORT(name, site, constq)                                     \
+ssize_t sim_##name(int fd, constq void *buf, size_t n, int flags) {             \
+	ssize_t r; int err, e;                                                     \
+	sim_yield(site);                                                           \
+	e = sim_fault(site);                                                       \
+	if (e) { sim_probe("fault." site); sim_hash_u64(0x50c0 + (uint64_t)e); errno = e; return -1; } \
+	e = sim_fault(site ".short");                                              \
+	if (e > 0 && n > 1) { n = 1 + (size_t)(e - 1) % (n - 1); sim_probe("fault." site ".short"); sim_hash_u64(0x50c1 + (uint64_t)n); } \
+	r = name(fd, buf, n, flags);                                               \
+	err = errno;                                                               \
+	S.fd_gen++;                                                                \
+	sim_hash_u64(0x50c00000000ull ^ (uint64_t)(int64_t)r ^ ((uint64_t)((int64_t)r < 0 ? err : 0) << 24)); \
+	sim_log(site "(fd#%d, %zu) = %lld%s%s", sim_fd(fd) ? sim_fd(fd)->ord : -1, n, (long long)r, (int64_t)r < 0 ? " " : "", (int64_t)r < 0 ? strerror(err) : ""); \
+	errno = err;                                                               \
+	sim_yield(site ".done");                                                   \
+	errno = err;                                                               \
+	return r;                                                                  \
+}
+SOCK_SEAM_SHORT(recv, "recv", )
+SOCK_SEAM_SHORT(send, "send", const)
 SOCK_SEAM(ssize_t, recvfrom, "recvfrom", (int fd, void *buf, size_t n, int flags, struct sockaddr *sa, socklen_t *sl), (fd, buf, n, flags, sa, sl))
 SOCK_SEAM(ssize_t, recvmsg, "recvmsg", (int fd, struct msghdr *m, int flags), (fd, m, flags))
 SOCK_SEAM(ssize_t, pread, "pread", (int fd, void *buf, size_t n, off_t off), (fd, buf, n, off))
@@ -810,6 +845,7 @@ int sim_qwrite_fail_errno(void) { int c = sim_self(); return c >= 0 ? S.fb[c].qw
 void sim_seams_begin(void) {
 	sim_net_reset();
 	sim_on_close_hook = NULL;
+	sim_on_pipe_io_hook = NULL;
 	sim_on_epoll_ctl_hook = NULL;
 }
 void sim_seams_end(void) {
